@@ -99,23 +99,33 @@ pub fn block_text(b: &[P]) -> String {
     format!("{{ {} }}", items.join("; "))
 }
 
+/// An expression in operand position (operator operand, array element, object value, call argument, predicate):
+/// `if`, `abort` and `return` only parse there inside a block, assignments inside a group.
+fn operand(p: &P) -> String {
+    match p {
+        P::If(..) | P::Abort(..) | P::Return(..) => format!("{{ {} }}", text(p)),
+        P::Set(..) | P::SetErr(..) | P::Merge(..) => format!("({})", text(p)),
+        _ => text(p),
+    }
+}
+
 pub fn text(p: &P) -> String {
     match p {
         P::Lit(v) => vv::lit(v).expect("literal must be printable"),
         P::Var(n, segs) => tgt_text(&Tgt::Var(n.clone(), segs.clone())),
         P::Ev(segs) => tgt_text(&Tgt::Ev(segs.clone())),
         P::Meta(segs) => tgt_text(&Tgt::Meta(segs.clone())),
-        P::Arr(items) => format!("[{}]", items.iter().map(text).collect::<Vec<_>>().join(", ")),
-        P::Obj(items) => format!("{{ {} }}", items.iter().map(|(k, v)| format!("{}: {}", vv::str_lit(k), text(v))).collect::<Vec<_>>().join(", ")),
-        P::Bin(op, a, b) => format!("({} {op} {})", text(a), text(b)),
-        P::Not(a) => format!("!({})", text(a)),
+        P::Arr(items) => format!("[{}]", items.iter().map(operand).collect::<Vec<_>>().join(", ")),
+        P::Obj(items) => format!("{{ {} }}", items.iter().map(|(k, v)| format!("{}: {}", vv::str_lit(k), operand(v))).collect::<Vec<_>>().join(", ")),
+        P::Bin(op, a, b) => format!("({} {op} {})", operand(a), operand(b)),
+        P::Not(a) => format!("!({})", operand(a)),
         P::If(arms, els) => {
             let mut s = String::new();
             for (i, (pred, blk)) in arms.iter().enumerate() {
                 if i > 0 {
                     s.push_str(" else ");
                 }
-                s.push_str(&format!("if {} {}", text(pred), block_text(blk)));
+                s.push_str(&format!("if {} {}", operand(pred), block_text(blk)));
             }
             if let Some(e) = els {
                 s.push_str(&format!(" else {}", block_text(e)));
@@ -130,12 +140,12 @@ pub fn text(p: &P) -> String {
         P::Abort(Some(m)) => format!("abort {}", text(m)),
         P::Return(e) => format!("return {}", text(e)),
         P::Call(name, args, bang) => {
-            format!("{name}{}({})", if *bang { "!" } else { "" }, args.iter().map(text).collect::<Vec<_>>().join(", "))
+            format!("{name}{}({})", if *bang { "!" } else { "" }, args.iter().map(operand).collect::<Vec<_>>().join(", "))
         }
         P::Del(t) => format!("del({})", tgt_text(t)),
         P::Exists(t) => format!("exists({})", tgt_text(t)),
         P::Closure(name, coll, params, body) => {
-            format!("{name}({}) -> |{}| {}", text(coll), params.join(", "), block_text(body))
+            format!("{name}({}) -> |{}| {}", operand(coll), params.join(", "), block_text(body))
         }
     }
 }
@@ -650,6 +660,25 @@ fn builtin(name: &str, a: &[Value]) -> R {
             Ok(Array(x))
         }
         ("push", [_, _]) => Err(Ctl::Error),
+        // functions with OPTIONAL (defaulted) parameters, passed positionally
+        ("round", [Integer(i), Integer(_)]) => Ok(Integer(*i)),
+        ("contains" | "starts_with", [Bytes(h), Bytes(n), Boolean(cs)]) if h.is_ascii() && n.is_ascii() => {
+            let (h, n) = (String::from_utf8_lossy(h).to_string(), String::from_utf8_lossy(n).to_string());
+            let (h, n) = if *cs { (h, n) } else { (h.to_ascii_lowercase(), n.to_ascii_lowercase()) };
+            Ok(Boolean(if name == "contains" { h.contains(&n) } else { h.starts_with(&n) }))
+        }
+        ("replace", [Bytes(v), Bytes(pat), Bytes(with), Integer(count)]) if v.is_ascii() && pat.is_ascii() && with.is_ascii() && !pat.is_empty() => {
+            let (v, pat, with) = (String::from_utf8_lossy(v), String::from_utf8_lossy(pat), String::from_utf8_lossy(with));
+            Ok(Value::from(match *count {
+                c if c > 0 => v.replacen(pat.as_ref(), &with, c as usize),
+                c if c < 0 => v.replace(pat.as_ref(), &with),
+                _ => v.to_string(),
+            }))
+        }
+        ("join", [Array(items), Bytes(sep)]) if items.iter().all(|i| matches!(i, Bytes(_))) => {
+            let parts: Vec<String> = items.iter().map(|i| String::from_utf8_lossy(i.as_bytes().unwrap()).to_string()).collect();
+            Ok(Value::from(parts.join(&String::from_utf8_lossy(sep))))
+        }
         ("assert", [Boolean(true)]) => Ok(Boolean(true)),
         ("assert", [Boolean(false)]) => Err(Ctl::Error),
         _ => unm("builtin"),
